@@ -241,6 +241,8 @@ func (e *Engine) verifyFunction(fn *ssa.Function, safety bool) (fr *Frame, err e
 	}
 	f := e.newFrame(fn, nil)
 	f.safety = safety
+	exactRealDiv = f.contract != nil && f.contract.Opts["realdiv"] == "exact"
+	defer func() { exactRealDiv = false }()
 	st := e.entryState()
 	f.addHyp(tTrue(), tAnd(tGe(st.alloc, tInt(0)), tGe(st.clock, tInt(0))))
 	var args []Value
